@@ -7,5 +7,6 @@ INVARIANT NoRaise
 INVARIANT AllWF
 INVARIANT PodsKnown
 INVARIANT AccessorsTotal
+INVARIANT PostWF
 PROPERTY Decreasing
 CHECK_DEADLOCK FALSE
